@@ -7,3 +7,4 @@ import Rp2.Props.C11
 #print axioms Rp2.C11.optional_cell_read
 #print axioms Rp2.C11.out_row_fields_are_cells
 #print axioms Rp2.C11.intra_row_fields_are_cells
+#print axioms Rp2.C11.blank_rows_between_tables_are_skipped
